@@ -25,6 +25,16 @@ pub fn check(v: &View, vd: &mut Verdict) {
         if v.actors[a].spawned.is_none() {
             continue;
         }
+        // a stop request never waits for mailbox space - nor is it refused for lack of it: while the actor
+        // task exists its mailbox is open, and a stop through a strong handle goes in
+        for o in v.client_ops().filter(|o| o.actor == Some(a) && o.what == OpWhat::Stop && matches!(o.via, Some(HKind::Addr | HKind::Owning))) {
+            if o.err() && o.end.is_some_and(|e| e < v.dead_from(a)) {
+                vd.fail(
+                    format!("C12/stop_refused/{:?}", v.rt[a].mailbox),
+                    format!("actor {a}: stop at {} returned {:?} although the actor task was still there (it ended at {:?})", o.begin, o.res, v.actors[a].task_end),
+                );
+            }
+        }
         let sends: Vec<&OpRec> = v.client_ops().filter(|o| o.actor == Some(a) && o.what == OpWhat::Send).collect();
         // the loop stops taking messages out when it leaves the receive loop
         let stopped_enter = v.cbs.iter().filter(|c| c.actor == a && matches!(c.cb, Cb::Stopped | Cb::Finished)).map(|c| c.enter).min().unwrap_or(u64::MAX);
